@@ -2,6 +2,7 @@
   bmdrv: reads one JSON case per line on stdin, answers one JSON outcome per line.
 -/
 import Codec
+import BiscuitModel.Props.C07
 open Lean Biscuit Biscuit.Codec
 
 def runExpr (j : Json) : P Json := do
@@ -268,6 +269,72 @@ def runChain (j : Json) : P Json := do
       else []
     pure (Json.mkObj (base ++ more ++ pay))
 
+/-- operations on a sealed container: each is decided by the model's state machine -/
+def runSealOps (j : Json) : P Json := do
+  let subject ← parseContainer (← field j "subject")
+  let names ← (← getArr (← field j "ops")).mapM fun n => n.getStr?
+  match subject with
+  | none => throw "no proof"
+  | some c =>
+    let S : Scheme := { pub := fun a sk => some ⟨a, sk⟩, sign := fun _ _ _ => [], verify := fun _ _ _ => true }
+    let dec (name : String) : String :=
+      let op := (name.splitOn ".").getLastD ""
+      let refused : Bool := match op with
+        | "append" => (appendBlock S c 0 [1] [] none (some 3)).isNone
+        | "append_third_party" => (appendBlock S c 0 [1] [] (some ⟨⟨0, [2]⟩, []⟩) none).isNone
+        | "seal" => (sealToken S c).isNone
+        | "third_party_request" => c.isSealed
+        | _ => false
+      if refused then "refused" else "accepted"
+    pure (Json.mkObj [("ops", Json.mkObj (names.map fun n => (n, Json.str (dec n))))])
+
+def parseResp (j : Json) : P (Bytes × ExtSig) := do
+  pure (← hexField j "data", ⟨← parsePubKey (← field j "key"), ← hexField j "sig"⟩)
+
+/-- a third-party response offered to the verified API -/
+def runTpv (j : Json) : P Json := do
+  let target ← parseContainer (← field j "target")
+  let expected ← parsePubKey (← field j "expected")
+  let (data, resp) ← parseResp (← field j "resp")
+  let prev ← hexField j "genuine_prev_sig"
+  match target with
+  | none => throw "no proof"
+  | some c =>
+    -- the holder of the external key signed exactly one message
+    let genuine := Spec.externalV1 Gen.thirdPartySignatureVersion data prev
+    let S : Scheme := {
+      pub := fun a sk => some ⟨a, sk⟩, sign := fun _ _ _ => [],
+      verify := fun pk m s => pk == resp.key && m == genuine && s == resp.sig }
+    let r := C07.appendThirdParty S c expected data resp 0 [1]
+    pure (Json.mkObj [("accept", Json.bool r.isSome)])
+
+/-- a (possibly altered) response appended without verification, then the token is verified -/
+def runTpu (j : Json) : P Json := do
+  let root ← parsePubKey (← field j "root")
+  let base ← parseContainer (← field j "base")
+  let subject ← parseContainer (← field j "subject")
+  let g ← field j "genuine"
+  let (gdata, gresp) ← parseResp (← field g "resp")
+  let gprev ← hexField g "prev_sig"
+  let secrets ← (← getArr (← field j "secrets")).mapM fun s => do
+    pure ((← getNat (← field s "alg")), (← hexField s "sk"), ← parsePubKey (← field s "pk"))
+  match base, subject with
+  | some b, some c =>
+    let last := c.lastBlock
+    -- honest: the base token, the chain signature the holder just made for the new block,
+    -- and the one external signature the third party made
+    let chainSig := match blockPayload last b.lastBlock.sig with
+      | some p => [(b.lastBlock.nextKey, p, last.sig)]
+      | none => []
+    let triples := (tokenTriples root b).map (fun t => (t.2.1, t.2.2.1, t.2.2.2)) ++ chainSig ++
+      [(gresp.key, Spec.externalV1 Gen.thirdPartySignatureVersion gdata gprev, gresp.sig)]
+    let S : Scheme := {
+      pub := fun alg sk => (secrets.find? fun s => s.1 == alg && s.2.1 == sk).map (·.2.2)
+      sign := fun _ _ _ => []
+      verify := fun pk m s => triples.contains (pk, m, s) }
+    pure (Json.mkObj [("accept", Json.bool (verifyToken S root c))])
+  | _, _ => throw "no proof"
+
 def handle (line : String) : String :=
   match Json.parse line with
   | .error e => (Json.mkObj [("driver_error", s!"parse: {e}")]).compress
@@ -282,6 +349,9 @@ def handle (line : String) : String :=
       | "determ" => runAuthz j
       | "limits" => runLimits j
       | "chain" => runChain j
+      | "sealops" => runSealOps j
+      | "tpv" => runTpv j
+      | "tpu" => runTpu j
       | _ => throw s!"unknown op {op}"
     match r with
     | .ok o => o.compress
